@@ -29,10 +29,10 @@ Proof.
 Qed.
 
 (* what the logging call [OLog n hi msg fs w], issued after the program [ops], makes observable *)
-Definition emits (c : comp) (ops : list op) (n : nat) (hi : bool) (msg : bytes) (fs : list sfld) (w : Z) : list ev :=
+Definition emits (c : comp) (ops : list op) (n : nat) (hi : lvq) (msg : bytes) (fs : list sfld) (w : Z) : list ev :=
   last (run_events c (ops ++ [OLog n hi msg fs w])) [].
 (* the same, prescribed by the specification from the logger's path [sn] alone and the marks *)
-Definition path_emits (root : lcomp) (m : marks) (sn : snode) (hi : bool) (msg : bytes) (fs : list sfld) (w : Z) : list ev :=
+Definition path_emits (root : lcomp) (m : marks) (sn : snode) (hi : lvq) (msg : bytes) (fs : list sfld) (w : Z) : list ev :=
   if senabled hi root then
     let m' := mark_all w (log_marks hi root (items sn)) m in
     let '(c1, w1, _) := swalk m' hi (path_name (segs sn)) msg w fs root (items sn) false in c1 ++ w1
@@ -310,7 +310,7 @@ Fixpoint leaves (p : pcore) : list pcore :=
   | PTee l => concat (map leaves l)
   | PSamp c | PHook c | PFilt _ c => leaves c
   end.
-Inductive shape := ShLeaf | ShTee (l : list shape) | ShSamp (c : shape) | ShHook (c : shape) | ShFilt (thr : bool) (c : shape).
+Inductive shape := ShLeaf | ShTee (l : list shape) | ShSamp (c : shape) | ShHook (c : shape) | ShFilt (thr : lref) (c : shape).
 Fixpoint shape_of (p : pcore) : shape :=
   match p with
   | PIo _ _ _ | PObs _ _ => ShLeaf
